@@ -57,7 +57,9 @@ CmtP(cid, part) == <<"cmt", cid, part>>
 
 (* ---- features of a code piece ---- *)
 \* "tablens": a CREATE TABLE written WITHOUT the terminating `;` (ended only by the next CREATE / ALTER / DROP line or the end of input)
-StartsNew(c) == c # NoCode /\ ((c.idx = 1 /\ c.k \in {"table", "tablens", "seq", "view", "ext", "set", "drop", "alter"}) \/ (c.idx = 2 /\ c.k = "upsert"))
+\* "serde": a Hive table whose SERDEPROPERTIES hold an "input.regex" (rewritten by the pre-processor before the lines are split);
+\* "alter_rn": ALTER TABLE .. RENAME COLUMN with double-quoted names (a second ALTER kind, so that two ALTERs can follow each other)
+StartsNew(c) == c # NoCode /\ ((c.idx = 1 /\ c.k \in {"table", "tablens", "serde", "seq", "view", "ext", "set", "drop", "alter", "alter_rn"}) \/ (c.idx = 2 /\ c.k = "upsert"))
 \* "upsert": INSERT .. ON CONFLICT .. DO UPDATE <line break> SET q = ..;   - a skipped statement whose LAST line starts with SET
 IsSkip(c) == c # NoCode /\ c.idx = 1 /\ c.k \in {"go", "insert", "grant", "upsert"}
 IsSet(c) == c # NoCode /\ ((c.idx = 1 /\ c.k = "set") \/ (c.idx = 2 /\ c.k = "upsert"))
@@ -77,7 +79,7 @@ Balanced(st) == \* statement.count("(") == statement.count(")"): every piece tha
 \* A statement is LEFT PENDING at its last line (it reaches the grammar with the next statement start / the end of input) when it is
 \* unterminated, or when it is a one-line statement that itself ended a pending statement (process_statement parses the old statement and
 \* keeps the new line, `;` and all, as the pending one).  Computed from the source alone.
-NewKinds == {"table", "tablens", "seq", "view", "ext", "drop", "alter"}
+NewKinds == {"table", "tablens", "serde", "seq", "view", "ext", "drop", "alter", "alter_rn"}
 LeftPending[i \in 0..Len(stmts)] ==
     IF i = 0 THEN FALSE
     ELSE stmts[i].k = "tablens" \/ (stmts[i].n = 1 /\ stmts[i].k \in NewKinds /\ LeftPending[i - 1])
@@ -168,7 +170,7 @@ WriteCode(d, trail) ==  \* the next code piece (of the statement in progress, or
             \* (a ONE-line `;`-terminated statement after a pending one keeps its `;` when it is parsed at the end of input: `START 1;`
             \*  raises ValueError, `ADD UNIQUE (a);` TypeError - scripts mixing the two styles that way are outside C03 / C08, see OBSERVATIONS.md)
             /\ LeftPending[Len(stmts)] => d.k \in NewKinds /\ (d.n >= 2 \/ d.k = "tablens")
-            /\ d.k = "alter" => (\E i \in DOMAIN stmts : stmts[i].k \in {"table", "tablens"}) /\ (\A i \in DOMAIN stmts : stmts[i].k # "alter")
+            /\ d.k \in {"alter", "alter_rn"} => (\E i \in DOMAIN stmts : stmts[i].k \in {"table", "tablens", "serde"}) /\ (\A i \in DOMAIN stmts : stmts[i].k # d.k)
     /\ LET c == [sid |-> pos[1], idx |-> pos[2], n |-> d.n, k |-> d.k]
            cm == IF trail = "none" THEN NoCm ELSE [style |-> trail, cid |-> ncm + 1, dash |-> FALSE]
            l == [ind |-> FALSE, code |-> c, cm |-> cm]
